@@ -46,6 +46,19 @@ def shards_for(ctx, chosen, flavour, primary, defines=()):
             calls = ["zio::drive_c08_pair<Z%d, Z%d>();" % (a, b) for a, b in pairs[i:i + per]]
             src = zoo.translation_unit(grp, 0, "zoo_io.hpp", None, extra_calls=calls)
             sh.append(dict(name="pairs/group%d.%d/%s" % (g // 12, i // per, flavour), src=src, is_text=True, flavour=flavour, primary=primary, defines=list(defines)))
+    # siblings: every chosen stack with a storage-order layer against the same stack over another order (same payload
+    # layout, only the tag tells them apart), both directions
+    sib = [(s, s.sibling_order()) for s in chosen]
+    sib = [(a, b) for a, b in sib if b is not None]
+    for g in range(0, len(sib), 8):
+        grp, calls = [], []
+        for a, b in sib[g:g + 8]:
+            i = len(grp)
+            grp += [a, b]
+            calls += ["zio::drive_c08_pair<Z%d, Z%d>();" % (i, i + 1), "zio::drive_c08_pair<Z%d, Z%d>();" % (i + 1, i)]
+            npairs += 2
+        src = zoo.translation_unit(grp, 0, "zoo_io.hpp", None, extra_calls=calls)
+        sh.append(dict(name="siblings/group%d/%s" % (g // 8, flavour), src=src, is_text=True, flavour=flavour, primary=primary, defines=list(defines)))
     return sh, npairs
 
 
@@ -67,7 +80,7 @@ def run(ctx):
               "of each byte, +-0x20000000 (header<->footer form), the other magic, three real layer tags, another layer's tag from the same dump, "
               "random}; width words by {0,1,2,3,5,6,7,9,16,byte-swapped 4/8, the other valid width, random}; (3) a stream buffer that fails (EOF-style "
               "and by throwing from underflow/xsgetn) from the n-th read call for every n (strided when a load needs > 400 calls), and a stream "
-              "that has failed before loading; (4) %d ordered pairs of stacks whose on-disk signatures differ.  Accepted outcome: an exception "
+              "that has failed before loading; (4) %d ordered pairs of stacks whose on-disk signatures differ, including every chosen stack against its sibling over another storage order (identical payload layout, only the tag differs).  Accepted outcome: an exception "
               "derived from std::exception leaves field(std::istream&).  Monitors: outcome classification in ASan+UBSan builds with assertions on "
               "and off; valgrind memcheck (-O0 build, error-count delta per load) for decisions on uninitialised bytes.  non-trivial/distinct: "
               "hash of (dump, fault kind, position/value)") % (len(chosen), npairs),
